@@ -241,6 +241,14 @@ def trailer_read(F):
                 hit = [i for i, r in enumerate(reads) if any(x.k == "call" and x.x.get("site") == r for x in e.walk())]
                 via = [x.x["path"].rsplit("::", 1)[-1] for x in e.walk() if x.k == "call" and x.x["path"].startswith("compression::")]
                 if hit:
+                    if via:
+                        # the field must be exactly the Some payload of that conversion of the byte read: no remapping,
+                        # no default, no second source
+                        p = unwrap_payload(e, "Some")
+                        exact = p is not None and p.strip().k == "call" and p.strip().x["path"].startswith("compression::") and len(p.strip().a) == 1 \
+                            and p.strip().a[0].strip().k == "call" and p.strip().a[0].strip().x.get("site") == reads[hit[-1]]
+                        if not exact:
+                            via = via + ["(then altered)"]
                     fields[fld] = ("read", hit[-1], tuple(via))
                 elif e.strip().k in ("agg", "text") or "FileVersion" in e.show() or e.strip().k in ("var", "phi"):
                     fields[fld] = ("version",)
